@@ -13,12 +13,11 @@ func Write(dst, src []byte) {
 	copy(dst, src) // instrumented: one write-range event on dst
 }
 
-var scratch [65536]byte
-
 // Read reads every byte of p (library memory).
 //
 //go:noinline
 func Read(p []byte) {
+	var scratch [1024]byte // on the caller's stack: not shared between tasks
 	for len(p) > 0 {
 		n := copy(scratch[:], p) // instrumented: one read-range event on p
 		p = p[n:]
